@@ -496,37 +496,37 @@ def hittable_rule(ctx: Ctx) -> None:
     tv = try_ev(ctx, f, kb.value.elts[1])
     ctx.expect("R-TABLE", f, "hittable looks at the whole beat: the search tag is the greatest EventTag", isinstance(tv, EnumVal) and tv.name == top and ast.unparse(kb.value.elts[0]) == beat,
                str(tv), f"search key is {src(kb.value)}; every event on the beat must count, i.e. tag {top}", node=kb.node)
-    rets = [r for r in body_walk(f.node) if isinstance(r, ast.Return)]
-    outcomes = []
-    for r in rets:
-        fs = facts(ctx, f, r)
-        outcomes.append((try_ev(ctx, f, r.value), sorted((ast.unparse(a), pol) for a, pol in fs)))
     st = None
     for name, bs in locals_of(f).b.items():
         for b in bs:
             if b.kind == "assign" and isinstance(b.value, ast.Subscript) and self_attr(b.value.value, sn) == "_state_machine":
                 st = name
     require(st is not None, f"{f.fq}: prior state local not found")
-    want1 = (True, [(f"{st}.warp", False)])
-    ok1 = want1 in outcomes
-    ctx.expect("R-TABLE", f, "outside a warp every beat is hittable", ok1, "", f"returns: {outcomes}", node=f.node)
-    ok2 = False
-    for val, fs in outcomes:
-        if val is True and (f"{st}.warp", True) in fs:
-            # exception: STOP_END/DELAY_END on the same beat
-            atoms = [a for a, pol in fs if pol and a != f"{st}.warp"]
-            sets_ = []
-            for r in rets:
-                for a, pol in facts(ctx, f, r):
-                    s = _membership(ctx, f, a, f"{st}.event.tag")
-                    if s and pol:
-                        sets_.append(s)
-            same = any(a in (f"{beat} == {st}.event.beat", f"{st}.event.beat == {beat}") for a in atoms)
-            ok2 = {"STOP_END", "DELAY_END"} in sets_ and same
-    ctx.expect("R-TABLE", f, "inside a warp a beat is hittable only with a stop or delay on that same beat", ok2, "", f"returns: {outcomes}", node=f.node)
-    falses = [o for o in outcomes if o[0] is False]
-    ctx.expect("R-TABLE", f, "every other beat inside a warp is unhittable", len(falses) == 1 and (f"{st}.warp", True) in falses[0][1], "", f"returns: {outcomes}", node=f.node)
-    ctx.expect("R-TABLE", f, "exactly three outcomes", len(rets) == 3, str(len(rets)), f"{len(rets)} returns", node=f.node)
+    from ..decide import decisions, judge_table, key as _k
+    decs = decisions(ctx, f, stop=[st])
+    keys = set()
+    for d in decs:
+        keys.update(d.assign)
+    warp = f"{st}.warp"
+    same = _k(f"{beat} == {st}.event.beat")
+    members = [k for k in keys if k.startswith(f"{st}.event.tag in ")]
+    oks = False
+    if len(members) == 1:
+        tset = _tag_set(ctx, f, ast.parse(members[0], mode="eval").body.comparators[0])
+        oks = tset == {"STOP_END", "DELAY_END"}
+        ctx.expect("R-TABLE", f, "the stop/delay exception looks for a STOP_END or DELAY_END state", oks, str(tset), f"exception set is {tset}; a stop or delay that has been passed on this beat is a STOP_END / DELAY_END state", node=f.node)
+    if len(members) != 1 or not oks:
+        if len(members) != 1:
+            raise AnalysisError(f"{f.fq}: the stop/delay exception test is not recognised (found {members})")
+        return
+
+    def outcome(d):
+        k, v = d.terminal()
+        c = try_ev(ctx, f, v) if v is not None else None
+        return c if k == "return" and isinstance(c, bool) else f"{k} {src(v) if v is not None else ''}"
+
+    judge_table(ctx, "R-TABLE", f, "unhittable exactly inside a warp with no stop or delay passed on that same beat", decs, [warp, members[0], same],
+                lambda a: True if (not a[warp]) or (a[members[0]] and a[same]) else False, outcome)
 
 
 # ---------------------------------------------------------------------------
@@ -571,25 +571,27 @@ def beat_construction(ctx: Ctx) -> None:
     ctx.expect("R-TABLE", ("simfile.timing", ""), "BEAT_SUBDIVISION == 48 (192 per measure / 4)", sub == 48 and p.const("simfile.timing", "MEASURE_SUBDIVISION") == 192, str(sub), f"BEAT_SUBDIVISION is {sub}")
     new = ci.methods.get("__new__")
     require(new is not None, "Beat.__new__ not found")
-    rets = [r for r in body_walk(new.node) if isinstance(r, ast.Return)]
     ps = new.param_names()
     require(len(ps) == 3, "Beat.__new__ signature changed")
     cls_, num, den = ps
-    exact = f"{den} or isinstance({num}, Rational)"
-    seen = {}
-    for r in rets:
-        fs = sorted((ast.unparse(a), pol) for a, pol in facts(ctx, new, r))
-        seen[ast.unparse(r.value)] = fs
+    from ..decide import decisions, judge_table, IGNORE
+    from ..pat import match as _pm
     loc = locals_of(new)
     selfn = [n for n, bs in loc.b.items() for b in bs if b.kind == "assign" and ast.unparse(b.value) == f"super().__new__({cls_}, {num}, {den})"]
-    ok = len(selfn) == 1 and seen.get(selfn[0]) == [(den, True)] + [] if False else None
-    sn = selfn[0] if selfn else "self"
-    # facts_of splits `A or B` False into (A False),(B False); True stays whole
-    ok_exact = seen.get(sn) == [(exact, True)]
-    ok_round = seen.get(f"{sn}.round_to_tick()") == sorted([(den, False), (f"isinstance({num}, Rational)", False)])
-    ctx.expect("R-TABLE", new, "a numerator/denominator pair or a Rational is kept exactly", bool(selfn) and ok_exact, str(seen.get(sn)), f"returns: {seen}", node=new.node)
-    ctx.expect("R-TABLE", new, "anything else (float, Decimal, string) is rounded to the tick", bool(selfn) and ok_round, str(seen.get(f'{sn}.round_to_tick()')), f"returns: {seen}", node=new.node)
-    ctx.expect("R-TABLE", new, "exactly two outcomes", len(rets) == 2, "", "", node=new.node)
+    require(len(selfn) == 1, "Beat.__new__: the Fraction is not built by super().__new__(cls, numerator, denominator)")
+    sn = selfn[0]
+
+    def outcome(d):
+        k, v = d.terminal()
+        if k == "return" and isinstance(v, ast.Name) and v.id == sn:
+            return "exact"
+        if k == "return" and v is not None and ast.unparse(v) == f"{sn}.round_to_tick()":
+            return "snapped"
+        return f"{k} {src(v) if v is not None else ''}"
+
+    judge_table(ctx, "R-TABLE", new, "a numerator/denominator pair or a Rational is kept exactly; anything else (float, Decimal, string) is snapped to the tick",
+                decisions(ctx, new, stop=[sn]), [den, f"isinstance({num}, Rational)"],
+                lambda a: "exact" if (a[den] or a[f"isinstance({num}, Rational)"]) else "snapped", outcome)
     rt = ci.methods.get("round_to_tick")
     rr = [r for r in body_walk(rt.node) if isinstance(r, ast.Return)] if rt else []
     s = rt.param_names()[0] if rt else "self"
@@ -702,30 +704,38 @@ def timing_source_rule(ctx: Ctx) -> None:
     ctx.expect("R-TABLE", (TS, ""), "split timing starts with SSC version 0.7", thr == 0.7, str(thr), f"threshold is {thr}")
     f = p.func(f"{TS}:timing_source")
     sf, ch = f.param_names()
-    rets = [r for r in body_walk(f.node) if isinstance(r, ast.Return)]
-    outcomes = {}
-    for r in rets:
-        fs = facts(ctx, f, r)
-        outcomes[ast.unparse(r.value)] = (sorted((ast.unparse(a), pol) for a, pol in fs), r)
-    want_atoms = sorted([
-        (f"isinstance({sf}, SSCSimfile)", True), (f"isinstance({ch}, SSCChart)", True),
-    ])
-    ok_chart = False
-    if ch in outcomes:
-        fs = outcomes[ch][0]
-        pos = [a for a, pol in fs if pol]
-        ok_chart = all(pol for a, pol in fs) and len(fs) == 4 and f"isinstance({sf}, SSCSimfile)" in pos and f"isinstance({ch}, SSCChart)" in pos
-        ver = [a for a in pos if "version" in a]
-        anyp = [a for a in pos if a.startswith("any(")]
-        from ..pat import match as _m2
-        anyn = [a for a, pol in facts(ctx, f, outcomes[ch][1]) if pol and ast.unparse(a).startswith("any(")]
-        m2 = _m2("any(($p.__get__($c) for $p in CHART_TIMING_PROPERTIES))", anyn[0]) if len(anyn) == 1 else None
-        ok_chart = ok_chart and len(ver) == 1 and ver[0] == f"float({sf}.version or '0') >= SSC_VERSION_SPLIT_TIMING" and len(anyp) == 1 \
-            and m2 is not None and ast.unparse(m2["c"]) == ch and isinstance(m2["p"], ast.Name)
-    ctx.expect("R-TABLE", f, "the chart is the source exactly under: SSC simfile and SSC chart and version >= 0.7 and any non-empty chart timing property", ok_chart,
-               str(outcomes.get(ch, ("-",))[0]), f"chart returned under {outcomes.get(ch, ('-',))[0]}", node=f.node)
-    ok_sim = sf in outcomes and len(rets) == 2
-    ctx.expect("R-TABLE", f, "otherwise the simfile is the source", ok_sim, "", f"returns: {list(outcomes)}", node=f.node)
+    from ..decide import decisions, judge_table, canon_atom
+    from ..pat import match as _m2
+
+    def opaque(e):
+        t = ast.unparse(e)
+        return "CHART_TIMING_PROPERTIES" in t or "version" in t
+
+    decs = decisions(ctx, f, opaque=opaque)
+    keys = set()
+    for d in decs:
+        keys.update(d.assign)
+    a_sim, a_chart = f"isinstance({sf}, SSCSimfile)", f"isinstance({ch}, SSCChart)"
+    vers = [k for k in keys if "version" in k]
+    anys = [k for k in keys if "CHART_TIMING_PROPERTIES" in k]
+    okv = len(vers) == 1 and vers[0] in (f"SSC_VERSION_SPLIT_TIMING <= float({sf}.version or '0')",)
+    ctx.expect("R-TABLE", f, "the version test is float(version or '0') >= SSC_VERSION_SPLIT_TIMING", okv, str(vers),
+               f"version condition(s): {vers} - the documented rule is 'version 0.7 or later' (absent/empty version counts as 0)", node=f.node) if vers else None
+    oka = False
+    if len(anys) == 1:
+        mm = _m2("any(($p.__get__($c) for $p in CHART_TIMING_PROPERTIES))", ast.parse(anys[0], mode="eval").body)
+        oka = mm is not None and ast.unparse(mm["c"]) == ch
+    ctx.expect("R-TABLE", f, "the chart counts as timed when any of its timing properties is non-empty (truthy)", oka, str(anys),
+               f"chart timing condition(s): {anys}: must be any(<property value of the chart> for the eleven chart timing properties)", node=f.node) if anys else None
+    if len(vers) != 1 or len(anys) != 1:
+        raise AnalysisError(f"{f.fq}: the version / chart-timing conditions are not recognised (found {vers} / {anys})")
+
+    def outcome(d):
+        k, v = d.terminal()
+        return ast.unparse(v) if (k == "return" and v is not None) else k
+
+    judge_table(ctx, "R-TABLE", f, "the chart is the source exactly under: SSC simfile and SSC chart and version >= 0.7 and any non-empty chart timing property; otherwise the simfile",
+                decs, [a_sim, a_chart, vers[0], anys[0]], lambda a: ch if all(a.values()) else sf, outcome)
 
 
 def single_source(ctx: Ctx) -> None:
